@@ -713,6 +713,7 @@ func checkC18(c *Ctx, r *Report) {
 	r.rule("C18.KINDS", "dynamic types produced by the value reader ⊆ types handled by the writer's type switch")
 	escRule(c, r, "C18.ESC")
 	rawRule(c, r, "C18.RAW")
+	c18Num(c, r)
 	ws := c.fn("writeString")
 	re := c.fn("(*parser).readEscaped")
 	rv := c.fn("(*parser).readValue")
@@ -878,4 +879,122 @@ func flowsToResult(fn *ssa.Function, v ssa.Value) bool {
 		}
 	}
 	return false
+}
+
+// c18Num: the writer prints floats with strconv.FormatFloat(v, 'g', -1, ..), whose output can be an
+// exponent form without a decimal point (1e-05, 5e-324). The reader therefore must hand every number
+// token that is not an integer to ParseFloat: the ParseFloat call may depend on ParseInt having
+// failed, and on nothing else about the token's text.
+func c18Num(c *Ctx, r *Report) {
+	r.rule("C18.NUM", "in the value reader ParseFloat is applied to every number token ParseInt rejects: between the token and the ParseFloat call no branch tests the token's text other than through ParseInt's error; the writer's float formatter is FormatFloat 'g'")
+	rv := c.fn("(*parser).readValue")
+	if rv == nil {
+		r.undecided("C18.NUM", "anchor (*parser).readValue", token.NoPos, "not found")
+		return
+	}
+	var pf, pi *ssa.Call
+	for _, ci := range callsIn(rv) {
+		call, ok := ci.(*ssa.Call)
+		if !ok {
+			continue
+		}
+		if isFuncCall(call, "strconv", "ParseFloat") {
+			pf = call
+		}
+		if isFuncCall(call, "strconv", "ParseInt") {
+			pi = call
+		}
+	}
+	if pf == nil {
+		r.check("C18.NUM", "(*parser).readValue: number tokens reach ParseFloat", rv.Pos(), false, "no ParseFloat call: floats written by the writer cannot be read back")
+		return
+	}
+	tok := pf.Call.Args[0]
+	derivedFromTok := func(v ssa.Value) bool {
+		seen := map[ssa.Value]bool{}
+		var walk func(v ssa.Value, d int) bool
+		walk = func(v ssa.Value, d int) bool {
+			if d > 6 || seen[v] {
+				return false
+			}
+			seen[v] = true
+			if sameVal(v, tok) {
+				return true
+			}
+			switch t := v.(type) {
+			case *ssa.BinOp:
+				return walk(t.X, d+1) || walk(t.Y, d+1)
+			case *ssa.UnOp:
+				return walk(t.X, d+1)
+			case *ssa.Call:
+				if pi != nil && t == pi {
+					return false // ParseInt's verdict is the allowed test
+				}
+				for _, a := range t.Call.Args {
+					if walk(a, d+1) {
+						return true
+					}
+				}
+			case *ssa.Extract:
+				if call, ok := t.Tuple.(*ssa.Call); ok && pi != nil && call == pi {
+					return false
+				}
+				return walk(t.Tuple, d+1)
+			case *ssa.Lookup:
+				return walk(t.X, d+1)
+			case *ssa.Index:
+				return walk(t.X, d+1)
+			case *ssa.Slice:
+				return walk(t.X, d+1)
+			case *ssa.Convert:
+				return walk(t.X, d+1)
+			case *ssa.Phi:
+				for _, e := range t.Edges {
+					if walk(e, d+1) {
+						return true
+					}
+				}
+			}
+			return false
+		}
+		return walk(v, 0)
+	}
+	// guards that hold at ParseFloat but not yet where the token was produced
+	base := map[*ssa.If]bool{}
+	if ti, ok := tok.(ssa.Instruction); ok {
+		for _, g := range blockGuards(ti.Block()) {
+			base[g.at] = true
+		}
+		// tests on the token made in the token's own arm before the conversion are about what follows the
+		// token (the look-ahead byte), not about its text: they are kept out by the derivedFromTok test below
+	}
+	bad := ""
+	for _, g := range blockGuards(pf.Block()) {
+		if base[g.at] {
+			continue
+		}
+		if derivedFromTok(g.cond) {
+			bad = c.pos(g.at.Pos())
+			if !g.at.Pos().IsValid() {
+				bad = c.pos(valPosInstr(g.at.Block()))
+			}
+		}
+	}
+	r.check("C18.NUM", "(*parser).readValue: ParseFloat is tried for every number token that is not an integer", pf.Pos(), bad == "" && pi != nil,
+		fmt.Sprintf("the ParseFloat call depends on a test of the token's text (at %s) other than ParseInt's failure: a float the writer prints without a decimal point (1e-05) is rejected when read back", bad))
+	// writer side
+	okFmt := false
+	if wv := c.fn("writeValue"); wv != nil {
+		for _, ci := range callsIn(wv) {
+			if isFuncCall(ci, "strconv", "FormatFloat") && len(ci.Common().Args) >= 3 {
+				if k, ok := ci.Common().Args[1].(*ssa.Const); ok && k.Value != nil && (k.Int64() == 'g' || k.Int64() == 'e' || k.Int64() == 'f' || k.Int64() == 'G' || k.Int64() == 'E') {
+					okFmt = true
+				} else {
+					okFmt = false
+					break
+				}
+			}
+		}
+	}
+	r.check("C18.NUM", "writeValue: floats are printed by strconv.FormatFloat with a format ParseFloat reads back", token.NoPos, okFmt, "float formatting is not FormatFloat with a constant e/f/g format")
 }
